@@ -533,6 +533,7 @@ func init() {
 			r.Require("class_c14n_plain", 100)
 			r.Require("class_c14n_special", 50)
 			return []core.Workload{
+				{Name: "callback_histories", N: c.Pick(120, 1200), Fn: cbHistory("C04")},
 				{Name: "callback_signatures", N: c.Pick(500, 5000), Fn: c04Callback},
 				{Name: "attribute_query_signatures", N: c.Pick(150, 1500), Fn: c04Query},
 				{Name: "metadata_signatures", N: c.Pick(150, 1500), Fn: c04Metadata},
